@@ -12,12 +12,18 @@ mod props;
 mod script;
 mod secrets;
 mod tun;
+mod s5srv;
 
 use common::Args;
 
 fn main() {
     let args = Args::parse();
     common::install_quiet_panic_hook();
+    if std::env::var("VERIF_LOG").is_ok() {
+        // debugging aid: the endpoint's own log on stdout (not used by any registered command)
+        let _ = log::set_boxed_logger(Box::new(trusttunnel::log_utils::make_stdout_logger()));
+        log::set_max_level(log::LevelFilter::Trace);
+    }
     std::fs::create_dir_all(args.root.join(".work")).ok();
     env::sweep_work(&args.root);
     // A panic that escapes a check is never a silent crash: when any panic of this process
@@ -27,7 +33,9 @@ fn main() {
         Ok(code) => code,
         Err(msg) => {
             let log = common::PANIC_LOG.lock().map(|l| l.clone()).unwrap_or_default();
-            let foreign = log.iter().find(|(loc, _)| !loc.is_empty() && !loc.contains("/verif/"));
+            // harness sources show as "src/..." (relative to the crate) or with the /verif/ prefix; TrustTunnel and the crates it
+            // calls into as /repo/... and ~/.cargo/registry/...
+            let foreign = log.iter().find(|(loc, _)| !loc.is_empty() && !loc.contains("/verif/") && !loc.starts_with("src/"));
             match foreign {
                 Some((loc, text)) => {
                     let dir = args.root.join("evidence").join("replays");
